@@ -95,6 +95,8 @@ pub struct Swarm {
 pub struct Gen {
     pub next_table: usize,
     pub next_index: usize,
+    /// names of indexes dropped by DROP INDEX (candidates for re-use by a later CREATE INDEX)
+    pub dropped_ix: Vec<String>,
     pub next_save: usize,
     pub next_long: u32,
     pub next_col: usize,
@@ -108,6 +110,7 @@ impl Gen {
         Gen {
             next_table: 0,
             next_index: 0,
+            dropped_ix: vec![],
             next_save: 0,
             next_long: 0,
             next_col: 0,
@@ -707,8 +710,15 @@ impl Gen {
                             cols.push(c2.name.clone());
                         }
                     }
-                    let name = format!("ix{}", self.next_index);
-                    self.next_index += 1;
+                    // sometimes the name of an index that was dropped earlier (same name, new file)
+                    let in_use: Vec<&str> = view.tables.values().flat_map(|t| t.indexes.iter().map(|i| i.name.as_str())).collect();
+                    let free_old: Vec<String> = self.dropped_ix.iter().filter(|n| !in_use.contains(&n.as_str())).cloned().collect();
+                    let name = if !free_old.is_empty() && rng.chance(1, 2) {
+                        free_old[rng.usize_below(free_old.len())].clone()
+                    } else {
+                        self.next_index += 1;
+                        format!("ix{}", self.next_index - 1)
+                    };
                     Op::CreateIndex {
                         table: t.def.name.clone(),
                         index: IndexDef { name, cols, unique: rng.chance(1, 4) },
@@ -719,7 +729,11 @@ impl Gen {
                     if all.is_empty() {
                         continue;
                     }
-                    Op::DropIndex(all[rng.usize_below(all.len())].name.clone())
+                    let n = all[rng.usize_below(all.len())].name.clone();
+                    if !self.dropped_ix.contains(&n) {
+                        self.dropped_ix.push(n.clone());
+                    }
+                    Op::DropIndex(n)
                 }
                 4 => {
                     let t = match self.pick_table(rng, view) {
